@@ -135,7 +135,7 @@ var checks = map[string]Check{
 	},
 	"C08": {
 		Level:       "model_checking",
-		Rule:        "stateless DFS over all placements (interleavings up to the preemption bound) of Session.Close / Peer.Close relative to handler entry, handler steps, reply write and reply arrival, for a call in flight inbound, outbound or both; event order is part of the explored state; oracle from the event log",
+		Rule:        "stateless DFS over all placements (interleavings up to the preemption bound) of Session.Close / Peer.Close relative to handler entry, handler steps, reply write and reply arrival, for a call in flight inbound, outbound or both (raw protocol; inbound and outbound also over json, pb and thrift-binary); event order is part of the explored state; oracle from the event log",
 		Assumptions: baseAssumptions,
 		Jobs: func(tier string) []Job {
 			var js []Job
@@ -160,6 +160,18 @@ var checks = map[string]Check{
 						j.Shards = 16
 						j.Budget = 300
 						j.Params = fmt.Sprintf("dir=%s,closer=%s,yields=2", d, c)
+					}
+					js = append(js, j)
+				}
+			}
+			// the other wire protocols (a reply may be written in several pieces)
+			for _, pr := range []string{"json", "pb", "thrift"} {
+				for _, d := range []string{"in", "out"} {
+					j := sched("c08", fmt.Sprintf("dir=%s,closer=session,yields=1,proto=%s", d, pr), 1, 4)
+					if tier == "thorough" {
+						j.Bound = 2
+						j.Shards = 16
+						j.Budget = 120
 					}
 					js = append(js, j)
 				}
